@@ -82,6 +82,29 @@ def prove(assumptions, goal, opts):
     dt = time.time() - t0
     if v2 == 'unsat':
         return 'unsat', 'cvc5', dt, None
+    if v2 != 'sat' and r == z3.unknown:
+        # retry with another seed and a larger budget (verdicts must not flip when all cores are busy)
+        for seed in (7, 23):
+            s3 = z3.Solver()
+            s3.set('timeout', int(opts.get('timeout_ms', 10000)) * 3)
+            s3.set('random_seed', seed)
+            for a in assumptions:
+                s3.add(a)
+            s3.add(z3.Not(goal))
+            STATS['z3_calls'] += 1
+            r3 = s3.check()
+            if r3 == z3.unsat:
+                return 'unsat', 'z3(retry)', time.time() - t0, None
+            if r3 == z3.sat:
+                m = s3.model()
+                try:
+                    gv = m.eval(goal, model_completion=True)
+                except z3.Z3Exception:
+                    gv = None
+                if gv is None or not z3.is_true(gv):
+                    return 'sat', 'z3(retry)', time.time() - t0, m
+                break
+        dt = time.time() - t0
     # candidate counter-model: drop the quantified assumptions (weaker theory => any model found is only a
     # candidate; the driver reports it as a violation only if it replays on the real code)
     s2 = z3.Solver()
